@@ -489,6 +489,51 @@ class TableHistory:
             if n:
                 self.expect_refused("slice assignment", self.t.__setitem__, slice(0, 1), ro)
 
+    def op_setitem_foreign(self):
+        """t[i] = a row object just read from a table with ANOTHER metadata schema, its metadata not yet decoded.  The
+        documented behaviour ("validated and encoded according to the table's metadata_schema") is what a list of rows
+        does with the row's *value*: the destination stores its own encoding of row.metadata, or refuses the value and
+        stays as it was - it never takes over the source table's bytes."""
+        n = len(self.M)
+        r = self.rng
+        if not self.has_md or n == 0:
+            return self.op_setitem()
+        row, mdv = self.g.row(n, api=True)
+        kw = api_kwargs(self.name, row, mdv)
+        other = self.cls()
+        i = r.randrange(-n, n)
+        self.ctx.count("setitem-foreign-schema")
+        if self.schema:
+            if r.random() < 0.6:
+                # source: the same permissive JSON schema, but the stored text is not in canonical form
+                other.metadata_schema = tskit.MetadataSchema(json.loads(JSON_SCHEMA))
+                self.add_row_call(other, kw)
+                raw = json.dumps(mdv, sort_keys=False, ensure_ascii=True, separators=(", ", ": ")).encode()
+                if r.random() < 0.3:
+                    raw = b" " + raw + b"\n"
+                other.packset_metadata([raw])
+                self.ctx.feature("setitem-foreign:json-noncanonical" + (":bytes-differ" if raw != row[-1] else ":same-bytes"))
+                ro = other[0]
+                if r.random() < 0.3:
+                    ro = other.copy()[0]
+                self.must(self.t.__setitem__, i, ro)
+                self.M[i] = row
+            else:
+                # source: no schema, so row.metadata is a bytes object, which the JSON codec cannot encode
+                kw["metadata"] = row[-1]
+                self.add_row_call(other, kw)
+                self.ctx.feature("setitem-foreign:raw-row-into-json-table")
+                self.expect_refused("row with raw-bytes metadata (schema-less table) assigned to a JSON-schema table",
+                                    self.t.__setitem__, i, other[0])
+        else:
+            # destination has no schema (metadata must be bytes); source decodes to a dict
+            other.metadata_schema = tskit.MetadataSchema(json.loads(JSON_SCHEMA))
+            kw["metadata"] = self.g.jsonobj()
+            self.add_row_call(other, kw)
+            self.ctx.feature("setitem-foreign:json-row-into-raw-table")
+            self.expect_refused("row with dict metadata (JSON-schema table) assigned to a schema-less table",
+                                self.t.__setitem__, i, other[0])
+
     def op_truncate(self):
         n = len(self.M)
         r = self.rng
@@ -860,7 +905,7 @@ class TableHistory:
 
     OPS = (
         ("add_row", 14), ("add_row_bad", 2), ("append", 5), ("getitem_int", 6), ("getitem_slice", 5),
-        ("getitem_mask", 4), ("getitem_ids", 4), ("setitem", 8), ("truncate", 4), ("keep_rows", 6), ("clear", 1),
+        ("getitem_mask", 4), ("getitem_ids", 4), ("setitem", 8), ("setitem_foreign", 3), ("truncate", 4), ("keep_rows", 6), ("clear", 1),
         ("set_columns", 3), ("append_columns", 5), ("packset", 4), ("col_assign", 5), ("drop_metadata", 1),
         ("copy", 2), ("iter", 2), ("eq", 2),
     )
